@@ -16,7 +16,7 @@
    write_section_headers and the final header overwrite).
    Not modelled: ET_DYN (.dynamic, PT_DYNAMIC), create_hash_table, DWARF sections. *)
 From PV Require Import Lib.Py Gen.Tab_elf Model.ElfWriter Spec.ElfSpec.
-From PV Require Import Proofs.C17_codec Proofs.C17_recover Proofs.C17_bounded Proofs.C17_file.
+From PV Require Import Proofs.C17_codec Proofs.C17_recover Proofs.C17_bounded Proofs.C17_file Proofs.C17_tables.
 From Coq Require Import String.
 Open Scope Z_scope.
 
@@ -158,6 +158,99 @@ Theorem c17_segments_match_images_in_file : forall bs im, seg_in_file bs im ->
           segment_byte bs (phdr_of ph) (ms_addr sec + Z.of_nat i) = Some b.
 Proof. exact seg_in_file_bytes. Qed.
 Print Assumptions c17_segments_match_images_in_file.
+
+(* ---- tables of arbitrary length (wave 3).  (a) Any list of records serialised one after the other anywhere in
+        any file is read back by the gABI reader as exactly the views of those records. ---- *)
+Theorem c17_shdr_table_read : forall ht, ht_ok ht -> forall hs chunks bs off,
+  sers (ht_shdr ht) hs chunks -> at_ bs off (List.concat chunks) ->
+  exists raw, read_table (ht_big ht) (shdr_layout (ht_bits ht =? 64)) bs off (len hs) = Some raw
+              /\ omap mk_shdr raw = Some (map shdr_of hs).
+Proof. exact shdr_table_read. Qed.
+Print Assumptions c17_shdr_table_read.
+
+Theorem c17_symtab_read : forall ht, ht_ok ht -> forall es chunks bs off,
+  sers (ht_sym ht) es chunks -> at_ bs off (List.concat chunks) ->
+  exists raw, read_table (ht_big ht) (sym_layout (ht_bits ht =? 64)) bs off (len es) = Some raw
+              /\ omap (mk_sym (ht_bits ht =? 64)) raw = Some (map sym_of es).
+Proof. exact symtab_read. Qed.
+Print Assumptions c17_symtab_read.
+
+Theorem c17_rela_read : forall ht, ht_ok ht -> forall es chunks bs off,
+  sers (ht_rela ht) es chunks -> at_ bs off (List.concat chunks) ->
+  exists raw, read_table (ht_big ht) (rela_layout (ht_bits ht =? 64)) bs off (len es) = Some raw
+              /\ omap (mk_rela (ht_bits ht =? 64)) raw = Some (map (rela_of (ht_bits ht =? 64)) es).
+Proof. exact rela_read. Qed.
+Print Assumptions c17_rela_read.
+
+Theorem c17_phdr_read : forall ht, ht_ok ht -> forall es chunks bs off,
+  sers (ht_phdr ht) es chunks -> at_ bs off (List.concat chunks) ->
+  exists raw, read_table (ht_big ht) (phdr_layout (ht_bits ht =? 64)) bs off (len es) = Some raw
+              /\ omap (mk_phdr (ht_bits ht =? 64)) raw = Some (map phdr_of es).
+Proof. exact phdr_read. Qed.
+Print Assumptions c17_phdr_read.
+
+(* (b) the writer loops produce such serialised lists, appended to the file, and the records carry what the
+       object prescribes: symbols (st_info = binding<<4|type, size, name in the string table, undefined -> 0/0,
+       defined -> value + section address and the section's number), RELA entries (offset, addend,
+       info = sym<<32|type resp. sym<<8|type with the symbol's table index and the arch's type),
+       section headers (every field as recorded, sh_link patched to .strtab / .symtab). *)
+Theorem c17_writer_symbols : forall ht o syms s nr s', write_symbols ht o s nr syms = Ok s' -> names_inv s ->
+  exists es chunks, sers (ht_sym ht) es chunks /\ w_buf s' = w_buf s ++ List.concat chunks
+    /\ Forall2 (symrel o (w_secnums s) (w_strtab s')) syms es
+    /\ names_inv s' /\ ext (w_strtab s) (w_strtab s') /\ w_secnums s' = w_secnums s /\ w_shdrs s' = w_shdrs s.
+Proof. exact write_symbols_sers. Qed.
+Print Assumptions c17_writer_symbols.
+
+Theorem c17_writer_relas : forall ht o rels s s', write_relas ht o s rels = Ok s' ->
+  exists es chunks, sers (ht_rela ht) es chunks /\ w_buf s' = w_buf s ++ List.concat chunks
+    /\ Forall2 (relrel ht o (w_symmap s)) rels es.
+Proof. exact write_relas_sers. Qed.
+Print Assumptions c17_writer_relas.
+
+Theorem c17_writer_section_headers : forall ht hs s s', write_shdr_list ht s hs = Ok s' ->
+  exists hs' chunks, Forall2 (fun h h' => patch (w_secnums s) h = Ok h') hs hs'
+    /\ sers (ht_shdr ht) hs' chunks /\ w_buf s' = w_buf s ++ List.concat chunks
+    /\ w_eh s' = w_eh s /\ w_secnums s' = w_secnums s /\ w_phdrs s' = w_phdrs s.
+Proof. exact write_shdr_list_sers. Qed.
+Print Assumptions c17_writer_section_headers.
+
+Theorem c17_patch_fields : forall sn h h', patch sn h = Ok h' ->
+  (forall k, k <> "sh_link"%string -> hget h' k = hget h k)
+  /\ (hget h "sh_type" = 2 -> sget sn ".strtab"%string = Some (hget h' "sh_link"))
+  /\ (hget h "sh_type" = 4 -> sget sn ".symtab"%string = Some (hget h' "sh_link"))
+  /\ (hget h "sh_type" = 1 \/ hget h "sh_type" = 3 -> h' = h).
+Proof. exact patch_fields. Qed.
+Print Assumptions c17_patch_fields.
+
+(* (c) WHOLE FILE, every object (relocatable and executable, any number of sections, symbols, relocations,
+       images): the gABI reader decodes, from the bytes export_object returns, the ELF header record [eh] at
+       offset 16 (e_type, e_machine, e_version, e_ehsize, e_shentsize as prescribed; e_shnum = number of recorded
+       section headers + 1; e_phnum = number of program header records; e_shstrndx = the number of .strtab), the
+       null section header followed by exactly the recorded section headers (all fields; sh_link patched) at
+       e_shoff, and exactly the program header records right after the ELF header. *)
+Theorem c17_whole_file_tables : forall ht machine o et bs,
+  export_object ht machine o et = Ok bs -> image_names_ok o -> ht_ok ht ->
+  exists eh hs hs' phs sn,
+    (exists raw, read_struct (ht_big ht) (ehdr_layout (ht_bits ht =? 64)) bs 16 = Some raw
+                 /\ mk_ehdr (ht_bits ht =? 64) (ht_big ht) raw = Some (ehdr_of (ht_bits ht =? 64) (ht_big ht) eh))
+    /\ hget eh "e_type" = et /\ hget eh "e_machine" = machine /\ hget eh "e_version" = 1
+    /\ hget eh "e_shnum" = len hs + 1
+    /\ hget eh "e_shentsize" = Z.of_nat (lsize (shdr_layout (ht_bits ht =? 64)))
+    /\ hget eh "e_ehsize" = 16 + Z.of_nat (lsize (ehdr_layout (ht_bits ht =? 64)))
+    /\ hget eh "e_phnum" = len phs
+    /\ sget sn ".strtab"%string = Some (hget eh "e_shstrndx")
+    /\ Forall2 (fun h h' => patch sn h = Ok h') hs hs'
+    /\ (exists raw0 raw,
+          read_struct (ht_big ht) (shdr_layout (ht_bits ht =? 64)) bs (hget eh "e_shoff") = Some raw0
+          /\ mk_shdr raw0 = Some (shdr_of [])
+          /\ read_table (ht_big ht) (shdr_layout (ht_bits ht =? 64)) bs
+               (hget eh "e_shoff" + Z.of_nat (lsize (shdr_layout (ht_bits ht =? 64)))) (len hs) = Some raw
+          /\ omap mk_shdr raw = Some (map shdr_of hs'))
+    /\ (exists rawp, read_table (ht_big ht) (phdr_layout (ht_bits ht =? 64)) bs
+                       (16 + Z.of_nat (lsize (ehdr_layout (ht_bits ht =? 64)))) (len phs) = Some rawp
+                     /\ omap (mk_phdr (ht_bits ht =? 64)) rawp = Some (map phdr_of phs)).
+Proof. exact export_tables. Qed.
+Print Assumptions c17_whole_file_tables.
 
 (* ---- whole files, bounded: 82 relocatable + 320 executable objects (4 little-endian machines; 0-3 sections,
         0-5 symbols local/global/undefined, 0-4 relocations on x86_64, 0-2 images, two base addresses):
